@@ -36,7 +36,7 @@ CHECKS["C10"] = dict(
 CHECKS["C02"] = dict(
   category="exploration",
   technique="differential testing against an independent RFC 7950 section 6 reader: exhaustive enumeration of short texts over a 16-fragment alphabet + rapid grammar-directed layout generation with mutation; native Go fuzzing in the thorough tier",
-  text="yang.Parse is compared with a second, table-free reader of RFC 7950 section 6 written in the harness (acceptance; keywords, argument presence, exact argument strings, nesting, order; nil statements and non-empty error on rejection) on every text of up to 5 (quick) / 6 (thorough) fragments over {a, pattern, SP, LF, TAB, CR, ; { } quote apostrophe backslash + / * n}, and on printed statement forests with hostile arguments under random layout (all quoting styles, concatenation, multi-line indentation with tabs, comments, CRLF, no optional whitespace), partly mutated. Printed texts carry their intended forest, which cross-checks the reference reader itself. Exhaustive for the short-token interplay; layouts beyond that are sampled.",
+  text="yang.Parse is compared with a second, table-free reader of RFC 7950 section 6 written in the harness (acceptance; keywords, argument presence, exact argument strings, nesting, order; nil statements and non-empty error on rejection) on every text of up to 6 (quick) / 7 (thorough) fragments over {a, pattern, SP, LF, TAB, CR, ; { } quote apostrophe backslash + / * n}, and on printed statement forests with hostile arguments under random layout (all quoting styles, concatenation, multi-line indentation with tabs, comments, CRLF, no optional whitespace), partly mutated. Printed texts carry their intended forest, which cross-checks the reference reader itself. Exhaustive for the short-token interplay; layouts beyond that are sampled.",
   note="Trusts the harness reader (cross-checked against the printer's intent on every printed text). The four constructs the property excludes and invalid UTF-8 are counted, not judged.",
   design="DESIGN.md section 4, C02")
 
